@@ -1,0 +1,67 @@
+// Copyright 2026 Dolthub, Inc.
+//
+// Licensed under the Apache License, Version 2.0 (the "License");
+// you may not use this file except in compliance with the License.
+// You may obtain a copy of the License at
+//
+//     http://www.apache.org/licenses/LICENSE-2.0
+//
+// Unless required by applicable law or agreed to in writing, software
+// distributed under the License is distributed on an "AS IS" BASIS,
+// WITHOUT WARRANTIES OR CONDITIONS OF ANY KIND, either express or implied.
+// See the License for the specific language governing permissions and
+// limitations under the License.
+
+//go:build verif
+
+package merge
+
+// Verification vocabulary (ghost code, compiled only with -tags verif). The
+// bodies are executable so that contracts can also be run concretely.
+
+func verif_old[T any](x T) T { return x }
+
+// verif_loopold(e) in a loop invariant: the value of e when the loop was entered (contracts only).
+func verif_loopold[T any](x T) T { return x }
+
+func verif_res[T any](i int) T { var z T; return z }
+
+func verif_implies(a, b bool) bool { return !a || b }
+
+func verif_forall(lo, hi int, f func(int) bool) bool {
+	for k := lo; k < hi; k++ {
+		if !f(k) {
+			return false
+		}
+	}
+	return true
+}
+
+func verif_exists(lo, hi int, f func(int) bool) bool {
+	for k := lo; k < hi; k++ {
+		if f(k) {
+			return true
+		}
+	}
+	return false
+}
+
+func verif_assert(b bool) {
+	if !b {
+		panic("verif_assert failed")
+	}
+}
+
+func verif_assume(b bool) {}
+
+// verif_sameslice(a, b): a and b are the same window of the same backing array (contracts only; the executable
+// body cannot tell two empty windows apart).
+func verif_sameslice[T any](a, b []T) bool {
+	return len(a) == len(b) && (len(a) == 0 || &a[0] == &b[0])
+}
+
+// verif_rangeidx stands for the number of completed iterations of the enclosing range loop (contracts only).
+func verif_rangeidx() int { return 0 }
+
+// verif_arg stands for the i-th argument of the call a call-site assertion is attached to (contracts only).
+func verif_arg[T any](i int) T { var z T; return z }
